@@ -7,7 +7,8 @@ from pdb2sql import StructureSimilarity, pdb2sql
 ID = 'C09'
 LEVEL = 'proof'
 CLUSTER = 'A'
-GEN_UNITS = ['zone_line', 'read_zone_line']
+GEN_UNITS = ['zone_line', 'read_zone_line',
+             'sim_runtime', 'sim_get_izone_rowID', 'sim_compute_irmsd_pdb2sql']       # simTie: Props/C09K2.lean
 RULE = ('zone lines: every printable ASCII chain character x residue numbers {-999..-1, 0, 1..9999 sample incl. every digit-count}; '
         'written by the library (_write_zone) and read by both readers (read_zone, get_izone_rowID); route agreement: synthetic two-chain '
         'complexes (equal-sized chains, chains whose atom count and backbone count rank differently, incomplete decoys, negative numbers) '
